@@ -76,6 +76,8 @@ def terms(depth):
     out.append(fixed('add(') + join([small[1], small[2]], ', ') + fixed(')'))
     out.append(fixed('join(') + join([small[0], small[0]], ', ') + fixed(')'))
     out.append(fixed('p()'))
+    # characters outside ASCII (two and three bytes in UTF-8) in atoms, functors and variable names
+    out += [fixed('Montréal'), fixed('ß'), fixed('$Ünder'), fixed('[é, Δ | $Ü]'), fixed('ville(Montréal, $Pop)'), fixed('größe(λ, [α, β])'), fixed('日本(東京)')]
     return dedupe(out)
 
 
@@ -106,6 +108,7 @@ def goals(depth):
             fixed('f($X) = f(a)')]
     out += [fixed('less_than(') + join([x, n], ', ') + fixed(')'), fixed('equal(') + join([x, a], ', ') + fixed(')'),
             fixed('greater_than_or_equal(') + join([x, fixed('$Y')], ', ') + fixed(')')]
+    out += [fixed('ville(Montréal, $Pop)'), fixed('größe($X, 7)'), fixed('$X = Δ'), fixed('print(é, $Ü)'), fixed('less_than($Ü, 7)'), fixed('日本(東京, $X)')]
     if depth > 0:
         g = out[:2] + out[7:8] + out[14:15]
         for h in g:
@@ -146,6 +149,7 @@ def rules(depth):
     for h in heads[1:4]:
         for b in bs:
             out.append(h + fixed(' :- ') + b + fixed('.'))
+    out += [fixed('ville(Montréal, 1700000).'), fixed('größe($X, $Y) :- maß($X, $Y), $Y = Δ.'), fixed('é($X) :- ß($X); not(ü($X)).')]
     return dedupe(out)
 
 
